@@ -4,6 +4,7 @@
     (the new block never replaces a block, so [add_block]'s precondition holds vacuously). *)
 From Coq Require Import Ascii String List Bool PArith NArith FMapPositive Permutation Lia.
 From PTBase Require Import Exn PyStr.
+From Gen Require Import GenFlags.
 From P Require Import Assoc GridEdit GridLemmas Inv InvRock InvBlock InvConnAdd.
 Import ListNotations.
 Open Scope list_scope.
@@ -11,7 +12,8 @@ Open Scope list_scope.
 Lemma add_rocktype_blist g n g' : add_rocktype g n = Ok g' -> blist g' = blist g.
 Proof.
   unfold add_rocktype, add_rocktype_obj. destruct (rget (new_rock g n) (rn (new_rock g n) (next g))) as [old|].
-  - destruct (mem old (rlist (new_rock g n))); [|discriminate]. intro H; inversion H; subst; reflexivity.
+  - destruct (mem old (rlist (new_rock g n))); [|discriminate]. intro H; inversion H; subst.
+    unfold relink_if. destruct (add_rocktype_relinks && negb (Pos.eqb old (next g))); reflexivity.
   - intro H; inversion H; subst; reflexivity.
 Qed.
 
